@@ -3,6 +3,7 @@ import FluteModel.Lemmas.NoCodeDec
 import FluteModel.Lemmas.NoCodeSession
 import FluteModel.Lemmas.FecSession
 import FluteModel.Lemmas.ObjSessExact
+import FluteModel.Lemmas.DzExact
 /-
   C03  No silent corruption: 'complete' always means the sender's exact bytes.
 
@@ -291,6 +292,60 @@ example :
     (match ObjSess.Sess.run PP {} [.fdt (f 1), .fdt (f 2), .pkt (pk 0 [1, 2]), .pkt (pk 1 [7, 8])] with
      | .ok S => S.log.map (fun c => (c.toi, writtenOf c.all.reverse, c.all.any (fun w => match w with | .complete => true | _ => false)))
      | .error _ => []) = [(1, [1, 2, 7, 8], true), (1, [1, 2], false)] := by decide
+
+/-! ### cenc != null: the decompressor contract through `decoder_read` (BlockWriter level)
+
+`DzFun P c T X` (Lemmas/DzExact.lean) is the functional contract of the third-party decompressor for one object: `T` is the
+compressed stream of `X`; whatever the chunking of the `read` calls, once all of `T` has been offered and the input declared finished,
+the decompressor answers "nothing more" (`WouldBlock` / `Ok(0)`) only when it has handed out exactly `X`
+(= decompress (compress x) = x, no early end of stream).  The theorem threads it through everything flute puts around the
+decompressor: `init_decoder` (constructor reading the header), the ring buffer with partial writes, the `loop` of `decode_write_pkt`
+with its stall detection, `decoder_read` with Content-Length accounting and refused writes, `finish`.
+NOT DONE: the lift to `complete_implies_exact*` (object level).  It needs the invariant "bytes fed to the decompressor = the first
+`sbn` genuine blocks" in place of `GInv.opened` (which speaks about written bytes and therefore fixes cenc = Null in `GenOp`); the
+block-level part of `GInv` (every written block is the genuine block, in SBN order, last one trimmed) is encoding independent. -/
+
+/-- **cenc != null, BlockWriter level: Ok to the end means exactly the content** (see `bw_stream_exact`): a fresh BlockWriter of
+    encoding `c != Null`, non-empty chunks concatenating to the compressed stream `T`, every data call and the final
+    `finish` + `decoder_read` Ok, nothing discarded because of Content-Length  =>  the writer accepted exactly `X`. -/
+theorem cenc_stream_exact (P : Params) (T X : Bytes) (st st1 st2 : St) (w w1 w2 : BW) (ds : List Bytes)
+    (hc : w.cenc ≠ .null) (F : DzFun P w.cenc T X) (hdz : w.dz = none) (hw : st.written = [])
+    (hne : ∀ d ∈ ds, d ≠ []) (hds : ds ≠ []) (hT : ds.flatten = T)
+    (hrun : FeedRun P st w ds st1 w1) (hfin : bwFinish P st1 w1 = .ok (st2, w2, true)) (hd : w2.discarded = false) :
+    st2.written = X :=
+  bw_stream_exact P T X st st1 st2 w w1 w2 ds hc F hdz hw hne hds hT hrun hfin hd
+
+/-- non-vacuity of the contract: the "stored" decompressor (hands out the ring bytes unchanged, as many as fit the buffer) meets
+    `DzFun` with `X = T`, for every encoding value and every stream -/
+theorem dzFun_stored (P : Params) (hP : P.dzRead = fun _ _ call => ⟨min call.avail.length call.buflen, .data (call.avail.take call.buflen)⟩)
+    (c : Cenc) (T : Bytes) : DzFun P c T T := by
+  have haux : ∀ todo done, prodAux P c done todo = consAux P c done todo := by
+    intro todo
+    induction todo with
+    | nil => intro done; rfl
+    | cons x r ih =>
+      intro done
+      simp only [prodAux, consAux, ih, hP, outOf]
+      congr 1
+      simp [List.take_take, Nat.min_comm]
+  intro hist call hT hfin hbuf hres
+  have hpc : prodOf P c hist = consOf P c hist := haux hist []
+  rw [hpc]
+  rcases hres with h | ⟨out, h1, h2⟩
+  · simp [hP] at h
+  · simp only [hP] at h1
+    have : out = call.avail.take call.buflen := by cases h1; rfl
+    subst this
+    have hemp : call.avail = [] := by
+      cases ha : call.avail with
+      | nil => rfl
+      | cons a r =>
+        rw [ha] at h2
+        cases hb : call.buflen with
+        | zero => exact absurd hb hbuf
+        | succ k => simp [hb] at h2
+    rw [hemp] at hT
+    simpa using hT
 
 /-! ### The theorems, with NO hypothesis on the outcome of the run
 
